@@ -347,7 +347,7 @@ def run_one(unit, scratch, log_dir, prop):
     open(path, "w").write(text)
     if log_dir:
         open(os.path.join(log_dir, f"{prop}-verus-{unit['name']}.rs"), "w").write(text)
-    cmd = ["verus", path, "--output-json", "--time", "--rlimit", str(unit.get("rlimit", 30))]
+    cmd = ["verus", path, "--output-json", "--time", "--multiple-errors", "20", "--rlimit", str(unit.get("rlimit", 30))]
     t0 = time.time()
     try:
         p = subprocess.run(cmd, cwd=scratch, stdout=subprocess.PIPE, stderr=subprocess.STDOUT,
